@@ -101,7 +101,29 @@ def C04(run): edit_family(run, 'C04')
 def C05(run): edit_family(run, 'C05')
 def C19(run): edit_family(run, 'C19', n_quick=1500, n_thorough=10000)
 
-PROPS = {'C12': C12, 'C16': C16, 'C17': C17, 'C08': C08, 'C04': C04, 'C05': C05, 'C19': C19}
+def C09(run):
+    run.static()
+    gen_strings(run)
+    run.dyn_compile(['Gen', 'ScopeSel'])
+    run.props()
+    big = run.tier == 'thorough'
+    run.suite('gen=split_scope', 'fcorr.py', ['split_scope', 8 if big else 7, 300, run.seed], 'FC_split_scope')
+    oracle(run, 'edit-search', 'edit_search.py', ['C09', run.seed, 6000 if big else 900], timeout=3000)
+    for f in run.findings(): oracle_finding(run, f)
+    run.assumptions += ['theorems cover the selector syntax (generated) and the layer choice; collecting/writing back layers, pruning and the frame are covered by the scoped-edit search (test) on bare / lambda / parenthesised wrappers',
+                        'wrappers between the let and the set (call, assert, with) are outside the domain: findings F-06, F-27']
+
+def C14(run):
+    run.static()
+    run.props()
+    big = run.tier == 'thorough'
+    run.suite('mapping', 'map_corr.py', [run.seed, 4800 if big else 800], 'MP')
+    run.suite('edit', 'edit_corr.py', [run.seed, 2400 if big else 400], 'ED')
+    oracle(run, 'mapping-search', 'mapping_search.py', [run.seed, 5000 if big else 700], timeout=3000)
+    for f in run.findings(): oracle_finding(run, f)
+    run.assumptions += EDIT_ASSUME + ['the dictionary laws are proved for the top-level set of the heap model; nested sets and the scope mapping are covered by the mapping search (test)']
+
+PROPS = {'C14': C14, 'C09': C09, 'C12': C12, 'C16': C16, 'C17': C17, 'C08': C08, 'C04': C04, 'C05': C05, 'C19': C19}
 
 def main():
     ap = argparse.ArgumentParser()
